@@ -159,8 +159,16 @@ func runC19(p *Program, r *Report) {
 		gates[gate] = true
 		n := gate.Type().(*types.Named)
 		b, isBasic := n.Underlying().(*types.Basic)
-		okGate := !gate.IsAlias() && !gate.Exported() && isBasic && b.Kind() == types.String && n.NumMethods() == 0
-		r.Check(okGate, "C19.R1", c, p.Pos(gate.Pos()), fmt.Sprintf("%s.%s is a defined, unexported string type without methods", short, gate.Name()), fmt.Sprintf("%s.%s is not a defined unexported method-less string type (alias=%v exported=%v)", short, gate.Name(), gate.IsAlias(), gate.Exported()))
+		// methods with exported names could satisfy interfaces of other packages (fmt.Stringer, error, fmt.Formatter,
+		// json.Marshaler …) and change how a value of the gate type is rendered; unexported ones cannot
+		exportedMethods := 0
+		for i := 0; i < n.NumMethods(); i++ {
+			if n.Method(i).Exported() {
+				exportedMethods++
+			}
+		}
+		okGate := !gate.IsAlias() && !gate.Exported() && isBasic && b.Kind() == types.String && exportedMethods == 0
+		r.Check(okGate, "C19.R1", c, p.Pos(gate.Pos()), fmt.Sprintf("%s.%s is a defined, unexported string type without exported methods", short, gate.Name()), fmt.Sprintf("%s.%s is not a defined unexported string type without exported methods (alias=%v exported=%v exported methods=%d)", short, gate.Name(), gate.IsAlias(), gate.Exported(), exportedMethods))
 	}
 	checkGateManufacture(p, r, "C19.R11", gates)
 	checkNoExportedTreeAccess(p, r, "C19.R12")
